@@ -59,6 +59,7 @@ def register(reg):
   reg.opaque['notification_cb'] = lambda ex, st, fn, pos, kwargs: [(st, NONE)]
 
   register_scalar(reg)
+  register_dimensioned(reg)
   reg.replayers['Measurement.validate[scalar]'] = replay_validate
   reg.replayers['Measurement.notify_value_set[scalar]'] = replay_validate
   reg.replayers['MeasuredValue.set'] = replay_set
@@ -334,3 +335,22 @@ def replay_validate_on(model, ob):
                                  'prescribed': ['old%d' % i for i in range(L)] + list(mapping)})
   out['reproduced'] = bad
   return out
+
+
+def register_dimensioned(reg):
+  D = "class_named('DimensionedMeasuredValue')"
+  c = reg.contract(M, '_coordinates_len', props=['C06'])
+  c.param('coordinates', 'val{int,float,str,none,bool}').returns('int').modifies()
+  c.ensures('a_scalar_coordinate_counts_as_one', 'result == 1')
+
+  c = reg.contract(M, 'DimensionedMeasuredValue.__setitem__', props=['C06'], name='DimensionedMeasuredValue.__setitem__[wrong number of coordinates]', callsite=False)
+  c.param('coordinates', 'val{int,float,str,none,bool}').param('value', 'val')
+  c.requires('more_than_one_dimension', 'self.num_dimensions != 1')
+  c.raises('InvalidDimensionsError', ensures=[('changes_nothing', 'len(self.value_dict) == old(len(self.value_dict))')])
+  c.ensures('never_accepted', 'False')
+  c.modifies()
+
+  c = reg.contract(M, 'Measurement.notify_value_set', props=['C06'], name='Measurement.notify_value_set[dimensioned]', callsite=False)
+  c.requires('dimensioned', 'bool(self.dimensions)')
+  c.ensures('validated_at_phase_end_not_now', 'self.outcome is %s.PARTIALLY_SET and self.marginal == old(self.marginal)' % OUT)
+  c.modifies('self.outcome')
